@@ -166,6 +166,18 @@ class C10(F.PropCheck):
                 x -= w
             evs, tags = f(rng, tier)
             cases.append(F.Case('%s%d' % (tier[0], i), evs, tags))
+        if tier == 'thorough':
+            # all (start, target) pairs 0..100 x 0..100 on a 2 s shutter with exact 10 ms callbacks, and a 7 x 7 grid for the other
+            # travel times / margins (17.3 s, 60 s with 30 ms callbacks to keep the case length bounded)
+            for full, dt, margins, grid in ((2000, 10000, (5,), range(0, 101)), (500, 10000, (-1, 0, 50), range(0, 101, 16)),
+                                            (17300, 10000, (-1, 0, 5, 50, 100), range(0, 101, 16)), (60000, 30000, (5, 100), range(0, 101, 25))):
+                for m in margins:
+                    for a in grid:
+                        for b in grid:
+                            evs = [self.cfg(margin=m, pos0=100 + 100 * a, t1=full, t2=full)] + [('CB', [dt, 0], b'')] * 3 + [('TASK', [b, -1], b'')]
+                            need = abs(a - b) * full * 10 + full * 1000 * (110 if m < 0 else max(m, 5)) // 100 + 1300000
+                            evs += [('CB', [dt, 0], b'')] * (need // dt + 3)
+                            cases.append(F.Case('tX%d_%d_%d_%d' % (full, m, a, b), evs, ['exhaustive-pairs', 'full%d' % full, 'margin%d' % m]))
         return cases
 
     # ---------------- monitor: the property text on the implementation trace (GPIO edges, stored/reported position, flags)
